@@ -4,6 +4,7 @@
 //	hx-queue exhaustive              all push sequences of <= 4 messages from a 6-message alphabet x pop scripts
 //	hx-queue prior                   Prior(a,b) on every pair of message classes x prioritizer states
 //	hx-queue concurrent -seed S -n N concurrent pushers + one consumer: multiset law only (MON lines)
+//	hx-queue consumer -seed S -n N   the real Validator.ConsumeQueue with a stub duty runner (order of hand-over)
 //	hx-queue replay FILE             re-run the operation lines of a corpus / replay file
 //
 // Output: CASE / op / OBS / MON lines (see harness/hx).
@@ -507,14 +508,34 @@ func replay(out *hx.Out, path string) {
 	}
 	defer fh.Close()
 	var s *sut
+	skip := false // a consumer case is regenerated from its seed: the hand-over order comes from ConsumeQueue
 	sc := bufio.NewScanner(fh)
 	for sc.Scan() {
 		w := strings.Fields(sc.Text())
 		if len(w) == 0 {
 			continue
 		}
+		if skip && w[0] != "CASE" {
+			continue
+		}
 		switch w[0] {
 		case "CASE":
+			skip = false
+			if i := strings.Index(sc.Text(), "consumer seed="); i >= 0 {
+				var sd uint64
+				var cs int
+				for _, f := range w {
+					if strings.HasPrefix(f, "seed=") {
+						sd = u(f[5:])
+					}
+					if strings.HasPrefix(f, "case=") {
+						cs = int(u(f[5:]))
+					}
+				}
+				consumerOne(out, sd, cs)
+				skip = true
+				continue
+			}
 			out.Case("replay %s", strings.Join(w[2:], " "))
 		case "END":
 			out.End()
@@ -554,6 +575,8 @@ func main() {
 		prior(out)
 	case "concurrent":
 		concurrent(out, *seed, *n)
+	case "consumer":
+		consumer(out, *seed, *n)
 	case "replay":
 		replay(out, fs.Arg(0))
 	default:
@@ -561,3 +584,5 @@ func main() {
 		os.Exit(2)
 	}
 }
+
+func phaseSlot(x uint64) phase0.Slot { return phase0.Slot(x) }
